@@ -8,6 +8,7 @@ import (
 	"crypto/sha256"
 	"fmt"
 	"math/big"
+	"os"
 	"sort"
 	"sync"
 
@@ -19,6 +20,7 @@ import (
 	lktypes "github.com/lianxiangcloud/linkchain/libs/cryptonote/types"
 	dbm "github.com/lianxiangcloud/linkchain/libs/db"
 	"github.com/lianxiangcloud/linkchain/libs/log"
+	"github.com/lianxiangcloud/linkchain/libs/ser"
 	"github.com/lianxiangcloud/linkchain/libs/txmgr"
 	"github.com/lianxiangcloud/linkchain/metrics"
 	"github.com/lianxiangcloud/linkchain/state"
@@ -218,6 +220,11 @@ func NewStack(o Opts) (*Stack, error) {
 		return nil, err
 	}
 	s.App = a
+	if os.Getenv("LVDEBUG") != "" {
+		l := log.New()
+		l.SetHandler(log.LvlFilterHandler(log.LvlWarn, log.StreamHandler(os.Stderr, log.TerminalFormat(false))))
+		a.SetLogger(l)
+	}
 	if o.Mempool != nil {
 		s.Mem = o.Mempool(a)
 	} else {
@@ -263,7 +270,22 @@ func (s *Stack) Propose(coinbase common.Address, maxTxs int) (b *types.Block, er
 	b.Header.LastCommitHash = b.LastCommit.Hash()
 	b.Header.EvidenceHash = b.Evidence.Hash()
 	s.App.PreRunBlock(b)
-	return b, nil
+	return Rewire(b)
+}
+
+// Rewire returns the block as every node (the proposer included) sees it: decoded from its wire bytes.  The consensus
+// state machine never keeps the object PreRunBlock worked on — it cuts it into parts and decodes the parts again — and that
+// object carries a block hash cached (by a log call inside processBlock) before the execution results were written to its header.
+func Rewire(b *types.Block) (*types.Block, error) {
+	bz, err := ser.EncodeToBytes(b)
+	if err != nil {
+		return nil, err
+	}
+	var nb *types.Block
+	if err := ser.DecodeBytes(bz, &nb); err != nil {
+		return nil, err
+	}
+	return nb, nil
 }
 
 // BlockOf builds a block with exactly txs (bypassing the mempool), header filled by PreRunBlock of THIS stack.
@@ -287,7 +309,7 @@ func (s *Stack) BlockOf(coinbase common.Address, txs types.Txs) (b *types.Block,
 	b.Header.LastCommitHash = b.LastCommit.Hash()
 	b.Header.EvidenceHash = b.Evidence.Hash()
 	s.App.PreRunBlock(b)
-	return b, nil
+	return Rewire(b)
 }
 
 // Validate runs the validator path check.
